@@ -45,6 +45,10 @@ pub fn check_picture_names(pic: &str) -> Result<bool, String> {
     for v in name_probes() {
         let lv = ad::to_lib(&v).map_err(|e| format!("probe rejected: {e:?}"))?;
         let out = ad::format_direct(&lv, pic).map_err(|p| format!("formatting a probe with {pic:?}: {p}"))?;
+        let lazy = ad::format_lazy(&lv, pic).map_err(|p| format!("Timestamp::format({pic:?}) + write!: {p}"))?;
+        if lazy != out {
+            return Err(format!("picture {pic:?}, probe {}: Formatter::format gives {out:?} but Timestamp::format + write! gives {lazy:?}", super::c05::show(Kind::Ts, v.raw)).chars().take(900).collect());
+        }
         let want_text = render(&v, &toks).expect("every token applies to a timestamp");
         match out {
             FmtOut::Text(s) if want_text.matches(&s) => {}
@@ -69,6 +73,10 @@ pub fn check_picture(pic: &str) -> Result<bool, String> {
     let v = probe();
     let lv = ad::to_lib(&v).map_err(|e| format!("probe rejected: {e:?}"))?;
     let out = ad::format_direct(&lv, pic).map_err(|p| format!("formatting the probe with {pic:?}: {p}"))?;
+    let lazy = ad::format_lazy(&lv, pic).map_err(|p| format!("Timestamp::format({pic:?}) + write!: {p}"))?;
+    if lazy != out {
+        return Err(format!("picture {pic:?}: Formatter::format gives {out:?} but Timestamp::format + write! gives {lazy:?}").chars().take(900).collect());
+    }
     let want_text = render(&v, &toks).expect("every token applies to a timestamp");
     match out {
         FmtOut::Text(s) if want_text.matches(&s) => Ok(true),
@@ -220,6 +228,19 @@ pub fn run(ctx: &Ctx) -> (Stats, Report) {
             }
         }
     }
+    // blank runs of every length next to name tokens, for every month / weekday name and both
+    // meridians (the rendered width varies with the value)
+    for n in 1..=700usize {
+        for pic in [format!("DD MONTH{}YYYY", " ".repeat(n)), format!("Day{}Mon PM", " ".repeat(n))] {
+            st.evaluations += name_probes().len() as u64;
+            st.fps.push(hash_bytes(19, pic.as_bytes()));
+            st.class("blank-run-next-to-name-tokens-x-every-name");
+            if let Err(m) = check_picture_names(&pic) {
+                st.fail(n as u64, Case::new(P, "picture_names", vec![], vec![pic]), format!("blank run of {n}: {}", m.chars().rev().take(300).collect::<String>().chars().rev().collect::<String>()));
+                break;
+            }
+        }
+    }
     // blank runs whose length sits at 2^k (k = 8..=20): the widths a narrower counter would have
     for k in 8..=20u32 {
         for n in [(1usize << k) - 1, 1 << k, (1 << k) + 1] {
@@ -350,7 +371,7 @@ pub fn run(ctx: &Ctx) -> (Stats, Report) {
     st.section("random_token_sequences", &mut mark);
 
     let rep = Report {
-        rule: format!("E1: every string of length 0..={maxlen} over the {}-symbol picture alphabet (exhaustive); near-miss spellings alone and embedded; blank runs of every length 1..=700; 30..=42 repeated tokens around the 36-token limit. E2: proptest token sequences of 0..=40 tokens (34..=38 over-sampled) with random letter case, blank runs up to 600 and an optional near-miss spelling spliced in. Oracle: reference longest-match tokenizer: try_new is Ok iff it accepts (<= 36 tokens), rejection must be Error::InvalidFormat; for accepted pictures the text formatted for the probe 2003-04-09 17:28:56.123456 (every field distinct) must equal the reference rendering of the reference token list (identifies token identity, name case and exact blank-run length); every letter-case pattern of MONTH / MON / DAY / DY / AM / PM / A.M. / P.M. (alone, doubled, embedded) is formatted for 19 probes covering every month name, every weekday name and both meridians. Run under both build profiles. Non-trivial = accepted by the reference, or rejected but one end-deletion away from an accepted picture, or containing a near-miss spelling.", ALPHABET.len()),
+        rule: format!("E1: every string of length 0..={maxlen} over the {}-symbol picture alphabet (exhaustive); near-miss spellings alone and embedded; blank runs of every length 1..=700 (alone, between number tokens, and next to name tokens for every month / weekday name); 30..=42 repeated tokens around the 36-token limit. E2: proptest token sequences of 0..=40 tokens (34..=38 over-sampled) with random letter case, blank runs up to 600 and an optional near-miss spelling spliced in. Every rendering goes through both Formatter::format and T::format + write!. Oracle: reference longest-match tokenizer: try_new is Ok iff it accepts (<= 36 tokens), rejection must be Error::InvalidFormat; for accepted pictures the text formatted for the probe 2003-04-09 17:28:56.123456 (every field distinct) must equal the reference rendering of the reference token list (identifies token identity, name case and exact blank-run length); every letter-case pattern of MONTH / MON / DAY / DY / AM / PM / A.M. / P.M. (alone, doubled, embedded) is formatted for 19 probes covering every month name, every weekday name and both meridians. Run under both build profiles. Non-trivial = accepted by the reference, or rejected but one end-deletion away from an accepted picture, or containing a near-miss spelling.", ALPHABET.len()),
         assumptions: vec!["a name token with lower-case first and upper-case second letter, and a mixed-case meridian token, have no style fixed by the statement: compared ignoring case".into()],
         exhaustive: false,
         extra: Default::default(),
